@@ -8,6 +8,7 @@ bash harness/build.sh
 mkdir -p coq/Generated
 ./build/genconsts > build/Consts.v.new
 cmp -s build/Consts.v.new coq/Generated/Consts.v || cp build/Consts.v.new coq/Generated/Consts.v
-(cd coq && coq_makefile -f _CoqProject -o Makefile && timeout 7000 make -j16 > ../build/coq-build.log 2>&1) || { tail -40 build/coq-build.log; exit 1; }
+bash coq/gen.sh
+(cd coq && timeout 7000 make -j16 > ../build/coq-build.log 2>&1) || { tail -40 build/coq-build.log; exit 1; }
 bash ocaml/build.sh
 echo setup done
